@@ -184,7 +184,7 @@ func mergeStubs(a, b map[string]string) map[string]string {
 	return out
 }
 
-var defaultInit = []string{"errors", "io", "unicode/utf8", "unicode", "strconv", "bytes", "strings", "math", "sort", "encoding/binary", "io/fs", "context"}
+var defaultInit = []string{"errors", "io", "time", "unicode/utf8", "unicode", "strconv", "bytes", "strings", "math", "sort", "encoding/binary", "io/fs", "context"}
 
 func presentInit(prog *ssa.Program) []string {
 	var out []string
